@@ -185,6 +185,22 @@ def generate(rng, tier, index):
             for le in ['A', use, r.choice(['Ru', 'Rk', 'Rc']), use] + \
                     (['D', use] if r.random() < 0.4 else []):
                 steps.append(letter_step(le, ot, '@' + lab, r, ver))
+        elif x < 0.50:
+            # a use that NAMES one object, inside a batch whose earlier
+            # items made another object usable (created with every mask
+            # bit, activated through the ID placeholder): the gate is the
+            # state, kind and mask of the object the item names
+            lab, ot = r.choice(objs)
+            mk = {'op': 'Create', 'label': ctx.label(),
+                  'otype': 'SymmetricKey', 'attrs': [
+                      gen.A('Cryptographic Algorithm', 3),
+                      gen.A('Cryptographic Length', 128),
+                      gen.A('Cryptographic Usage Mask', gen.ALL_MASK)]}
+            use = letter_step(r.choice(['U', 'U', 'X', 'W', 'K']), ot,
+                              '@' + lab, r, ver)['items'][0]
+            steps.append({'actor': 0, 'ver': list(ver), 'cont': 1,
+                          'items': [mk, {'op': 'Activate'}, use]})
+            objs.append((mk['label'], 'SymmetricKey'))
         else:
             lab, ot = r.choice(objs)
             le = r.choice(LETTERS + ['A', 'U', 'U', 'Rk'])
